@@ -47,6 +47,8 @@ class Engine(ExecMixin, CallMixin, EvalMixin):
         self.path_ends = []       # (kind, trace)
         import externs
         externs.install(self)
+        import tokens
+        tokens.install(self)
 
     # ------------------------------------------------------------------ types / leaves
     def K(self, t): return self.p.kind(t)
